@@ -340,7 +340,7 @@ pub fn run_hist(mode: &str, ops: &str) -> String {
         let out: String = match f.as_slice() {
             ["a", id, d] => {
                 let (id, d) = (unhex_u64(id), unhex_bytes(d));
-                let r = catch_unwind(AssertUnwindSafe(|| both!(&mut st, p => p.add_tile(id, d))));
+                let r = catch_unwind(AssertUnwindSafe(|| add_any(&mut st, id, d)));
                 match res3(r) {
                     Ok(()) => "ok".into(),
                     Err(k) => k.into(),
@@ -436,6 +436,26 @@ pub fn run_hist(mode: &str, ops: &str) -> String {
     format!("ok {}", outs.join("|"))
 }
 
+/// add_tile takes anything that converts into a Vec<u8>: the same bytes arrive as a Vec, a slice, a boxed slice, and -
+/// when they are valid UTF-8 - as a String or a &str, depending on the id (what is stored must not depend on it)
+pub fn add_any(st: &mut St, id: u64, d: Vec<u8>) -> std::io::Result<()> {
+    let pick = (id as usize).wrapping_add(d.len()) % 5;
+    macro_rules! go {
+        ($p:ident) => {
+            match (pick, std::str::from_utf8(&d)) {
+                (1, Ok(s)) => $p.add_tile(id, s.to_string()),
+                (2, Ok(s)) => $p.add_tile(id, s),
+                (3, _) => $p.add_tile(id, &d[..]),
+                (4, _) => $p.add_tile(id, d.clone().into_boxed_slice()),
+                _ => $p.add_tile(id, d),
+            }
+        };
+    }
+    match st {
+        St::S(p) => go!(p),
+        St::A(p) => go!(p),
+    }
+}
 pub fn run_op2(toks: &[&str]) -> String {
     match toks {
         ["tid", z, x, y] => {
